@@ -248,6 +248,12 @@ pub proof fn lemma_clean_is_noisy(p: Seq<Option<u8>>)
         lemma_clean_is_noisy(from(p, n));
     }
 }
+// C17: the start / end positions of consecutive values are contiguous (the range of a value reaches from where the previous one
+// ended, white space included, to where the parser stopped)
+pub open spec fn loc_is<R: Read>(l: Location, r: &Reader<R>) -> bool { l.line_number as int == r.line() && l.char_number as int == r.col() && l.input == r.name() }
+pub open spec fn fed_contig(fed: Seq<Context>) -> bool {
+    forall|k: int| 0 <= k < fed.len() - 1 ==> (#[trigger] fed[k + 1]).ictx()->0.start_location == fed[k].ictx()->0.end_location
+}
 pub open spec fn inputs(fed: Seq<Context>) -> Seq<JsonValue> { Seq::new(fed.len(), |k: int| fed[k].inp()) }
 impl<S: Read> Master<S> {
     pub closed spec fn only_oa(&self) -> bool { self.cli.only_objects_and_arrays }
@@ -279,7 +285,9 @@ impl<S: Read> Master<S> {
                 && (r->Ok_0 is Continue && !self.only_oa() && clean(old(reader).pending()) ==> inputs(fed) == vals(old(reader).pending()))
                 // ... and on a NOISY stream (C06: stray bytes between the values, any --on-error policy that lets the run go on) the
                 // pipeline is fed exactly the values, in order: the noise changes neither which values are processed nor their order
-                && (r->Ok_0 is Continue && !self.only_oa() && noisy(old(reader).pending()) ==> inputs(fed) == vals_n(old(reader).pending())), // @obl LOOP.stream : C01 C11 C17 C03 C06
+                && (r->Ok_0 is Continue && !self.only_oa() && noisy(old(reader).pending()) ==> inputs(fed) == vals_n(old(reader).pending()))
+                // ... and on a clean stream the position ranges of consecutive values are contiguous (C17)
+                && (!self.only_oa() && clean(old(reader).pending()) ==> fed_contig(fed)), // @obl LOOP.stream : C01 C11 C17 C03 C06
             // Continue is returned only at the true end of the input, Break only after the pipeline said Break — and then at once,
             // so the caller can (and does) skip the remaining files
             r is Ok && r->Ok_0 is Continue ==> final(reader).pending().len() == 0, // @obl LOOP.stop : C14 C01
@@ -307,6 +315,7 @@ impl<S: Read> Master<S> {
                 p0 == old(reader).pending(), n0 == p0.len(),
                 !self.only_oa() && clean(p0) ==> clean(reader.pending()) && inputs(fed).add(vals(reader.pending())) == vals(p0),
                 !self.only_oa() && noisy(p0) ==> noisy(reader.pending()) && inputs(fed).add(vals_n(reader.pending())) == vals_n(p0),
+                !self.only_oa() && clean(p0) ==> fed_contig(fed) && (fed.len() > 0 ==> loc_is(fed.last().ictx()->0.end_location, reader)),
             decreases reader.pending().len(),
 //@@ loop-start 1
             let ghost ph = reader.pending();
